@@ -136,6 +136,10 @@ class Models:
         if name in ('omp_get_max_threads', 'omp_get_num_threads'): return z3.IntVal(1)
         if name == 'now':
             return Opaque('time_point')
+        if name == 'epsilon':
+            import fractions
+            t = TY.of_node(n)
+            return z3.RealVal(fractions.Fraction(1, 2 ** 52) if t.name == 'double' else fractions.Fraction(1, 2 ** 23))
         if name == 'remove_if':
             b = A(0); en = A(1); pred = e.rv(args[2], st, fr)
             if not (isinstance(b, Iter) and isinstance(pred, Closure)): raise Unsupported('remove_if form')
@@ -281,9 +285,13 @@ class Models:
     def init_empty_container(self, st, obj):
         e = self.e
         t = obj.ty
-        if t.kind in ('vector', 'flist', 'list', 'string'):
+        if t.kind == 'flist':
+            self.flist_clear(st, obj)
+            log = e.harr(st, 'flist.copied_from', z3.ArraySort(I, z3.ArraySort(I, I)))
+            st.heap['flist.copied_from'] = z3.Store(log, obj.ref, z3.K(I, z3.IntVal(0)))
+            return
+        if t.kind in ('vector', 'list', 'string'):
             e.hwrite(st, 'vec.len', obj.ref, z3.IntVal(0))
-            if t.kind == 'flist': self.flist_clear(st, obj)
             return
         if t.kind == 'set':
             self.set_clear(st, obj); return
@@ -296,6 +304,13 @@ class Models:
         obj = ObjLV(e.new_object(), t)
         if not args:
             self.init_empty_container(st, obj); return obj
+        if len(args) == 1 and '&&' in ctor_t and self.same_container(ctor_t, t):
+            src = e.ev(args[0], st, fr)
+            if isinstance(src, ObjLV): return src          # move construction: the source is not used afterwards
+        if len(args) == 1 and t.kind in ('flist',):
+            src = e.ev(args[0], st, fr)
+            if isinstance(src, ObjLV):
+                self.copy_container(st, obj, src); return obj
         if t.kind == 'vector':
             a0 = e.ev(args[0], st, fr)
             if isinstance(a0, ObjLV) and a0.ty.kind == 'vector' and len(args) == 1:
@@ -313,6 +328,10 @@ class Models:
                     self.fill(st, obj, e.zero_value(t.args[0]))
                 return obj
         raise Unsupported('container constructor %s at %s' % (ctor_t, e.where(n, fr)))
+
+    def same_container(self, ctor_t, t):
+        a = ctor_t[ctor_t.index('(') + 1:].split('&&')[0].strip()
+        return TY.parse(a).kind == t.kind
 
     def fill(self, st, obj, v):
         e = self.e
@@ -349,10 +368,67 @@ class Models:
             raise Unsupported('copy of a vector of heap-class elements (%r)' % (ety,))
         if t.kind == 'record':
             e.copy_fields(st, dst, src); return
+        if t.kind == 'flist':
+            e.hwrite(st, 'flist.len', dst.ref, self.flist_len(st, src.ref))
+            arr = self.flist_count_arr(st)
+            st.heap['flist.count'] = z3.Store(arr, dst.ref, z3.Select(arr, src.ref))
+            return
         raise Unsupported('copy of container %r' % (t,))
 
+    # std::forward_list<T> (T scalar): ghost length + multiset of elements (count per value); DESIGN 4.2
+    def flist_count_arr(self, st):
+        return self.e.harr(st, 'flist.count', z3.ArraySort(I, z3.ArraySort(I, I)))
+
     def flist_clear(self, st, obj):
-        pass
+        e = self.e
+        e.hwrite(st, 'flist.len', obj.ref, z3.IntVal(0))
+        arr = self.flist_count_arr(st)
+        st.heap['flist.count'] = z3.Store(arr, obj.ref, z3.K(I, z3.IntVal(0)))
+
+    def flist_len(self, st, ref):
+        l = self.e.hread(st, 'flist.len', ref, I)
+        self.e.axiom_once(st, l, lambda: l >= 0)
+        return l
+
+    def m_flist_push_front(self, st, obj, bt, args, n, fr):
+        e = self.e
+        v = e.rv(args[0], st, fr)
+        if not (isinstance(v, Ptr) or (is_z3(v) and z3.is_int(v))):
+            # value-class elements: only the length is tracked
+            e.hwrite(st, 'flist.len', obj.ref, self.flist_len(st, obj.ref) + 1); return None
+        t = e.raw(v)
+        arr = self.flist_count_arr(st)
+        inner = z3.Select(arr, obj.ref)
+        st.heap['flist.count'] = z3.Store(arr, obj.ref, z3.Store(inner, t, z3.Select(inner, t) + 1))
+        e.hwrite(st, 'flist.len', obj.ref, self.flist_len(st, obj.ref) + 1)
+        return None
+
+    def m_flist_begin(self, st, obj, bt, args, n, fr): return Iter(obj.ref, z3.IntVal(0), obj.ty)
+    def m_flist_end(self, st, obj, bt, args, n, fr): return Iter(obj.ref, self.flist_len(st, obj.ref), obj.ty)
+    def m_flist_empty(self, st, obj, bt, args, n, fr): return self.flist_len(st, obj.ref) == 0
+    def m_flist_clear(self, st, obj, bt, args, n, fr): self.flist_clear(st, obj)
+
+    def fn_front_inserter(self, st, rd, args, n, fr):
+        return Rec('front_inserter', {'dst': self.e.ev(args[0], st, fr)})
+
+    def fn_copy(self, st, rd, args, n, fr):
+        e = self.e
+        b = e.rv(args[0], st, fr); en = e.rv(args[1], st, fr); out = e.rv(args[2], st, fr)
+        if isinstance(out, Rec) and out.t == 'front_inserter' and isinstance(b, Iter) and b.cty.kind == 'flist':
+            dst = out.f['dst']; src = b.vref
+            if e.safety_on('bounds'):
+                e.oblige(st, 'safety:copy-whole-list', z3.And(b.idx == 0, en.idx == self.flist_len(st, src), en.vref == src), where=e.where(n, fr))
+            arr = self.flist_count_arr(st)
+            old_d = z3.Select(arr, dst.ref); s_ = z3.Select(arr, src)
+            new_d = e.fresh('flist.count.sum', old_d.sort())
+            st.pc.append(QForall(lambda t: z3.Select(new_d, t) == z3.Select(old_d, t) + z3.Select(s_, t), 1, 'copy adds the source multiset'))
+            st.heap['flist.count'] = z3.Store(arr, dst.ref, new_d)
+            e.hwrite(st, 'flist.len', dst.ref, self.flist_len(st, dst.ref) + self.flist_len(st, src))
+            log = e.harr(st, 'flist.copied_from', z3.ArraySort(I, z3.ArraySort(I, I)))
+            inner = z3.Select(log, dst.ref)
+            st.heap['flist.copied_from'] = z3.Store(log, dst.ref, z3.Store(inner, src, z3.Select(inner, src) + 1))
+            return out
+        raise Unsupported('std::copy form at %s' % e.where(n, fr))
 
     # std::set<edge>: finite map keyed by the ordered node pair (n1 < n2); DESIGN A.5
     def set_arrays(self, st):
@@ -504,6 +580,17 @@ class Models:
             return ObjLV(e.elem_ref(st, it.vref, it.idx), ety)
         raise Unsupported('dereference of iterator into %r' % (t,))
 
+    # std::optional members
+    def m_optional_has_value(self, st, obj, bt, args, n, fr): return self._opt(st, obj).f['has']
+    def m_optional_bool(self, st, obj, bt, args, n, fr): return self._opt(st, obj).f['has']
+    def m_optional_value(self, st, obj, bt, args, n, fr):
+        if isinstance(obj, LVS): return self.e.member_lv(st, obj, 'value', None)
+        return obj.f['value']
+    def m_optional_reset(self, st, obj, bt, args, n, fr):
+        self.e.store(st, self.e.member_lv(st, obj, 'has', None), z3.BoolVal(False))
+    def _opt(self, st, obj):
+        return self.e.load(st, obj) if isinstance(obj, LVS) else obj
+
     def iter_arith(self, st, op, a, b):
         if isinstance(a, Iter) and isinstance(b, Iter):
             if op == '-': return a.idx - b.idx
@@ -611,28 +698,59 @@ class Models:
     m_vector_cend = m_vector_end
 
     def m_vector_resize(self, st, obj, bt, args, n, fr):
+        """resize(n[, v]): elements below the old size are kept, new ones are copies of v (or value-initialised)"""
         e = self.e
         nn = e.rv(args[0], st, fr)
         ety = obj.ty.args[0]
         old = e.vec_len(st, obj.ref)
+        v = None
         if len(args) > 1:
             v = e.ev(args[1], st, fr)
-            if e.is_value_type(ety):
-                if isinstance(v, LVS): v = e.load(st, v)
-                if z3.is_int_value(z3.simplify(old)) and z3.simplify(old).as_long() == 0:
-                    self.fill(st, obj, v)
-                else:
-                    raise Unsupported('resize(n, v) of a non-empty vector')
+            if isinstance(v, LVS) and not isinstance(v, ObjLV): v = e.load(st, v)
+        if e.is_value_type(ety):
+            if v is None: v = self.value_init(ety)
+            if z3.is_int_value(z3.simplify(old)) and z3.simplify(old).as_long() == 0:
+                self.fill(st, obj, v)
             else:
-                # vector of containers resized from empty with an empty prototype: every new element is empty
-                if not (z3.is_int_value(z3.simplify(old)) and z3.simplify(old).as_long() == 0):
-                    raise Unsupported('resize(n, v) of a non-empty vector of objects')
-                self.resize_fresh_objects(st, obj, nn, v)
+                for path, term in e.value_leaves(v, ety):
+                    lt = ety if ety.is_scalar() else dict(e.leaves(ety))[path]
+                    key = e.vec_data_key(ety, path) if not ety.is_scalar() else e.vec_data_key(ety)
+                    srt = e.sort_of(lt)
+                    if srt == R and z3.is_int(term): term = z3.ToReal(term)
+                    arr = e.harr(st, key, z3.ArraySort(I, z3.ArraySort(I, srt)))
+                    oldd = z3.Select(arr, obj.ref)
+                    newd = e.fresh(key + '!rs', oldd.sort())
+                    st.pc.append(QForall(lambda k, newd=newd, oldd=oldd, term=term: z3.Select(newd, k) == z3.If(k < old, z3.Select(oldd, k), term), 1, 'resize keeps the old prefix'))
+                    st.heap[key] = z3.Store(arr, obj.ref, newd)
+        else:
+            if v is None: raise Unsupported('resize(n) of a vector of objects')
+            self.resize_fresh_objects(st, obj, nn, v, old)
         e.hwrite(st, 'vec.len', obj.ref, nn)
         self.bump_epoch(st, obj.ref)
 
-    def resize_fresh_objects(self, st, obj, nn, proto):
-        raise Unsupported('resize of vector of objects')
+    def value_init(self, t):
+        e = self.e
+        if t.kind == 'optional':
+            return Rec('optional', {'has': z3.BoolVal(False), 'value': e.zero_value(t.args[0].noref())})
+        return e.zero_value(t)
+
+    def resize_fresh_objects(self, st, obj, nn, proto, old):
+        """vector<forward_list<T>>::resize(n, empty list) on an empty vector: every element is an empty list"""
+        e = self.e
+        ety = obj.ty.args[0]
+        if ety.kind != 'flist': raise Unsupported('resize of vector of %r' % (ety,))
+        if not isinstance(proto, ObjLV): raise Unsupported('resize prototype')
+        plen = self.flist_len(st, proto.ref)
+        if not z3.is_true(z3.simplify(plen == 0)): raise Unsupported('resize with a non-empty prototype list')
+        L = e.harr(st, 'flist.len', z3.ArraySort(I, I)); Cn = self.flist_count_arr(st)
+        L2 = e.fresh('flist.len!r', L.sort()); C2 = e.fresh('flist.count!r', Cn.sort())
+        elem = e.uf('elem', I, I, I); ev = e.uf('elem_v', I, I)
+        v = obj.ref
+        st.pc.append(QForall(lambda k: z3.And(z3.Select(L2, elem(v, k)) == z3.If(k < old, z3.Select(L, elem(v, k)), 0),
+                                              z3.Select(C2, elem(v, k)) == z3.If(k < old, z3.Select(Cn, elem(v, k)), z3.K(I, z3.IntVal(0))),
+                                              ev(elem(v, k)) == v), 1, 'resize keeps the old prefix, new elements are empty lists'))
+        st.pc.append(QForall(lambda r: z3.Implies(ev(r) != v, z3.And(z3.Select(L2, r) == z3.Select(L, r), z3.Select(C2, r) == z3.Select(Cn, r))), 1, 'other lists unchanged'))
+        st.heap['flist.len'] = L2; st.heap['flist.count'] = C2
 
     # range-for --------------------------------------------------------------------------
     def range_for(self, n, st, fr):
